@@ -89,15 +89,15 @@ TGEN_NOTE = ("Trusted: Coq kernel, the GoLite->Gallina translator harness/cmd/gv
 
 CLAIMED.update({
     "C07": ("Coq refinement theorems: each of the 13 decoders, translated from the Go source on every run, equals the layout specification for EVERY input (generic lia-based script) + translator validation + spec judge on the implementation",
-            "C07_all_decoders: for all byte lists, each translated decoder returns exactly spec_decode of its layout table (bit slice, signedness, scale/offset, NA codes, aux-mode selection, enum validation); C07_bits_is_le_slice and C07_bits_outside give the meaning of a bit slice and non-interference. The 13 refinement proofs are re-run whenever bleparser changes. The real decoders are run on every raw value of every field (exhaustive up to 12/22 bits) in three contexts, all enum bytes, all lengths, and compared with both the translation and the specification.",
-            TGEN_NOTE + "float64 rounding is not modelled (exact rationals; decimal literals denote reals; tolerance 1e-9).", "DESIGN.md 4/C07"),
+            "C07_all_decoders: for all byte lists, each translated decoder returns exactly spec_decode of its layout table (bit slice, signedness, scale/offset, NA codes, aux-mode selection, enum validation); C07_bits_is_le_slice and C07_bits_outside give the meaning of a bit slice and non-interference. The 13 refinement proofs are re-run whenever bleparser changes. The real decoders are run on every raw value of every field (exhaustive up to 12/16 bits) in three contexts, all enum bytes, all lengths, and compared with both the translation and the specification.",
+            TGEN_NOTE + "The theorems read the float operations over exact rationals (decimal literals denote reals; tolerance 1e-9 against the implementation); the same generated text is also read in IEEE-754 binary64 (Ble/GoSemF.v, Flocq) and compared bit for bit with the implementation on a seventh of the cases.", "DESIGN.md 4/C07"),
     "C08": ("Coq theorems derived from the 13 refinements (no fault for any input; ErrInputTooShort iff shorter than the documented length; suffix independence via spec_decode_app) + correspondence with cap == len and poisoned spare capacity",
             "C08_all_decoders: for every input of any length no decoder faults (index/slice/fixed-width reads judged against len), the error is ErrInputTooShort exactly when the input is shorter than ceil(max(start+width)/8), and for longer inputs the result is the specification's result on the record alone (C08_suffix_independent_spec). The implementation is run on all lengths 0..64 x contents with cap == len (Go panics exactly where the model faults) and with poisoned spare capacity, and on complete records with suffixes.",
             TGEN_NOTE, "DESIGN.md 4/C08"),
 })
 
 CLAIMED.update({
-    "C19": ("Coq theorems (padding for all lengths/block sizes; CTR over an arbitrary block function incl. prefix independence; handler case analysis; MAC lookup) + correspondence through the add-only hook with crypto/aes as oracle",
+    "C19": ("Coq theorems (padding for all lengths/block sizes; CTR over an arbitrary block function incl. prefix independence; handler case analysis; MAC lookup) + FIPS-197 AES modelled in Coq + correspondence through the add-only hook (crypto/aes cross-checked against the model)",
             "Proved: C19_pad (1..blocksize bytes each equal to the pad length, total a multiple), C19_short_ignored, C19_bad_key, C19_dispatch (plaintext = CTR decryption of bytes 8.. with the 16-bit LE nonce as initial counter block; type 0x01 decoded by the solar-charger decoder, other types not), C19_ctr_prefix, C19_total (the decoding is C07's and never faults), C19_mac_lookup, C19_mac_address. The real handler is run (one BleStruct instance for the whole history) on payload lengths 0..64, all record types, key lengths 0..40, nonces, and device lookups with well-formed and malformed addresses; the judge recomputes the CTR decryption from single-block AES encryptions.",
             TGEN_NOTE + "AES is modelled in Coq (Ble/Aes.v: FIPS-197 Cipher, 128/192/256-bit keys; C19_aes_fips197: Appendix B and C.1-C.3 vectors; C19_aes_ctr: the handler under the device key) and executed by the runner; crypto/aes outputs for the counter blocks are cross-checked against it. cipher.NewCTR is modelled; the handler's effects are read from its log output.", "DESIGN.md 4/C19"),
     "C20": ("Coq theorems over the CLI model (count line, one line per delivered register sorted by key, error lines for silent devices) + the freshly built vecli binary against a pty device simulator + I/O log replay",
